@@ -19,6 +19,7 @@ CONSTANTS
  UseIds = TRUE
  NodeTeardown = TRUE
  MayVanish = TRUE
+ SweepRelays = TRUE
  Aead = TRUE
  CheckIdent = TRUE
  AutoTimers = FALSE
